@@ -19,11 +19,12 @@ var schedUsers = []seedUser{
 	{Name: "old1", PW: "old1pw", Admin: false, PID: 2}, // upgradeable
 	{Name: "old2", PW: "old2pw", Admin: true, PID: 2},  // upgradeable
 	{Name: "cur1", PW: "cur1pw", Admin: false, PID: 1},
+	{Name: "o..-_d3", PW: "o..-_d3pw", Admin: false, PID: 2}, // upgradeable, a valid name with adjacent separator characters
 }
 
 func genOp(t *rapid.T, label string, pwTag *int) opSpec {
 	kind := rapid.SampledFrom([]string{"auth", "auth", "auth", "update", "update", "add", "remove", "setadmin", "list", "listfull", "check", "web-auth-abandon"}).Draw(t, label+"kind")
-	user := rapid.SampledFrom([]string{"old1", "old2", "cur1", "root", "new1", "nosuch"}).Draw(t, label+"user")
+	user := rapid.SampledFrom([]string{"old1", "old2", "cur1", "root", "new1", "nosuch", "o..-_d3", "n.-w@@2"}).Draw(t, label+"user")
 	op := opSpec{Kind: kind}
 	switch kind {
 	case "auth", "web-auth-abandon":
